@@ -275,9 +275,9 @@ def generate(ctx, rnd):
     ctx.count('transitions', r.states)
     if ctx.quick:
         rnd.shuffle(raws)
-        raws = raws[:2200]
+        raws = raws[:1500]
     cases = [{'raw': p, 'cid': 'pe%d' % k, 'src': 'tlc'} for k, p in enumerate(raws)]
-    nsim = ctx.pick(250, 4000)
+    nsim = ctx.pick(200, 4000)
     rs = core.run_tlc('MC_Phases', 'MC_Phases_sim', workers=1, timeout=1500,
                       extra=['-simulate', 'num=%d' % nsim, '-depth', '13', '-seed', str(ctx.seed + 7)])
     sims = [p for p in rs.prints() if core.tagged(p, 'BEH')]
@@ -285,7 +285,7 @@ def generate(ctx, rnd):
         raise core.MachineryError('MC_Phases_sim produced no behaviours:\n' + rs.out[-2000:])
     ctx.coverage['phases_tlc_simulated_behaviours'] = len(sims)
     cases += [{'raw': p, 'cid': 'ps%d' % k, 'src': 'sim'} for k, p in enumerate(sims)]
-    cases += [random_case(rnd, 'pr%d' % k) for k in range(ctx.pick(600, 8000))]
+    cases += [random_case(rnd, 'pr%d' % k) for k in range(ctx.pick(500, 8000))]
     return cases
 
 
